@@ -292,7 +292,32 @@ func (n *Net) RecipeCommitWithoutBlock() string {
 		}
 	}
 	// proposal and parts to everybody but the victim; all votes to everybody
+	helped := false
 	for iter := 0; iter < 6; iter++ {
+		if !helped && iter > 0 {
+			// the faulty validators back whatever block the others hold, so that it can be decided without the victim
+			for _, i := range n.Order {
+				if i == victim {
+					continue
+				}
+				rsx := n.Nodes[i].CS.GetRoundState()
+				if rsx.Height == h && rsx.ProposalBlock != nil && rsx.ProposalBlockParts != nil {
+					bid := types.BlockID{Hash: rsx.ProposalBlock.Hash(), PartSetHeader: rsx.ProposalBlockParts.Header()}
+					for _, g := range n.Faulty {
+						if n.ValIndex(rsx.Validators, g) < 0 {
+							continue
+						}
+						pv := n.SignVote(rsx.Validators, g, tmproto.PrevoteType, h, rsx.Round, bid, time.Now())
+						pc := n.SignVote(rsx.Validators, g, tmproto.PrecommitType, h, rsx.Round, bid, time.Now())
+						for _, j := range n.Order {
+							n.Send(g, j, &cs.VoteMessage{Vote: pv}, &cs.VoteMessage{Vote: pc})
+						}
+					}
+					helped = true
+					break
+				}
+			}
+		}
 		n.DeliverWhere(4000, func(e *Envelope) bool {
 			if isProposalOrPart(e) {
 				return e.To != victim
@@ -310,6 +335,25 @@ func (n *Net) RecipeCommitWithoutBlock() string {
 	}
 	rs := n.Nodes[victim].CS.GetRoundState()
 	if rs.Height == h && rs.Step == cstypes.RoundStepCommit && rs.ProposalBlock == nil {
+		// The victim knows the decision but neither the proposal nor the block.  A faulty proposer of the
+		// victim's round may now show it a validly signed proposal for a DIFFERENT block before the parts of
+		// the decided block arrive; the decided block's parts must still be accepted afterwards.
+		if p := n.ProposerAt(n.Nodes[victim], rs.Round); n.IsFaulty[p] && n.R.Intn(3) > 0 {
+			var src *Node
+			for _, i := range n.Order {
+				if i != victim && n.Nodes[i].CS.GetRoundState().Height == h {
+					src = n.Nodes[i]
+				}
+			}
+			if src == nil {
+				src = n.Nodes[victim]
+			}
+			if kb := n.ByzBlock(src, p, rs.Round, 40+n.R.Intn(4), ""); kb != nil && string(kb.BlockID.Hash) != string(rs.ProposalBlockParts.Header().Hash) {
+				n.Send(p, victim, n.ProposalMsgs(p, kb, h, rs.Round, -1)...)
+				n.DeliverWhere(200, func(e *Envelope) bool { return e.To == victim && isProposalOrPart(e) })
+				return "commit-without-block+other-proposal"
+			}
+		}
 		return "commit-without-block"
 	}
 	if rs.Height > h {
